@@ -56,6 +56,7 @@ def gen_mpscr(rng, tier):
 
 SPEC = {
     "C15": {
+        "extra_props": ("AbsQueue",),
         "parts": [
             {"name": "mpsc", "harness": "mpsc", "model": "Mpsc", "gen": gen_mpsc},
             {"name": "spsc", "harness": "spsc", "model": "Spsc", "gen": gen_spsc},
